@@ -105,6 +105,41 @@ Fixpoint unseen (outs : list stack) (seen : list stack) : list stack * list stac
 Definition outs_of (evs : list dev) : list stack :=
   flat_map (fun ev => match ev with DOut s _ => [s] | _ => [] end) evs.
 
+(* The closure operators: a work list, last found first.  `step` is the body
+   (one application of E to a stack); `g` bounds the number of expansions.
+   A stack is yielded when it is first found, and expanded later. *)
+Section Closure.
+  Variable step : stack -> dres.
+  Variable env : denv.
+
+  (* events of one expansion: diagnostics in place, new stacks where found *)
+  Fixpoint mark (evs : list dev) (seen : list stack) : list dev * list stack * list stack :=
+    match evs with
+    | [] => ([], [], seen)
+    | DSoft k :: r => let '(o, fresh, seen') := mark r seen in (DSoft k :: o, fresh, seen')
+    | DOut s _ :: r =>
+      if seen_mem s seen then mark r seen
+      else let '(o, fresh, seen') := mark r (s :: seen) in (DOut s env :: o, s :: fresh, seen')
+    end.
+
+  Fixpoint closure_loop (g : nat) (work seen : list stack) : dres :=
+    match g with
+    | O => DFuel
+    | S g' =>
+      match work with
+      | [] => ok []
+      | s :: rest =>
+        match step s with
+        | DOk evs ab =>
+          let '(out, fresh, seen') := mark evs seen in
+          if ab then DOk out true
+          else seq (ok out) (closure_loop g' (rev fresh ++ rest) seen')
+        | o => o
+        end
+      end
+    end.
+End Closure.
+
 Section Den.
   Variable P : params.
   Variable prog : tree.                            (* the whole program: where block bodies live *)
@@ -223,59 +258,9 @@ Section Den.
       | TNop | TDebug => ok [DOut stk env]
 
       | TStar c =>
-        (* work list, last found first; `g` bounds the number of expansions *)
-        seq (ok [DOut stk env])
-        ((fix loop (g : nat) (work seen : list stack) : dres :=
-           match g with
-           | O => DFuel
-           | S g' =>
-             match work with
-             | [] => ok []
-             | s :: rest =>
-               match den f' c env s with
-               | DOk evs ab =>
-                 let '(fresh, seen') := unseen (outs_of evs) seen in
-                 (* events of this expansion: diagnostics in place, new stacks where found *)
-                 let evs' :=
-                     (fix mark (evs : list dev) (seen : list stack) : list dev :=
-                        match evs with
-                        | [] => []
-                        | DSoft k :: r => DSoft k :: mark r seen
-                        | DOut o _ :: r =>
-                          if seen_mem o seen then mark r seen else DOut o env :: mark r (o :: seen)
-                        end) evs seen in
-                 if ab then DOk evs' true
-                 else seq (ok evs') (loop g' (rev fresh ++ rest) seen')
-               | o => o
-               end
-             end
-           end) f' [stk] [stk])
+        seq (ok [DOut stk env]) (closure_loop (den f' c env) env f' [stk] [stk])
 
-      | TPlus c =>
-        (fix loop (g : nat) (work seen : list stack) : dres :=
-           match g with
-           | O => DFuel
-           | S g' =>
-             match work with
-             | [] => ok []
-             | s :: rest =>
-               match den f' c env s with
-               | DOk evs ab =>
-                 let '(fresh, seen') := unseen (outs_of evs) seen in
-                 let evs' :=
-                     (fix mark (evs : list dev) (seen : list stack) : list dev :=
-                        match evs with
-                        | [] => []
-                        | DSoft k :: r => DSoft k :: mark r seen
-                        | DOut o _ :: r =>
-                          if seen_mem o seen then mark r seen else DOut o env :: mark r (o :: seen)
-                        end) evs seen in
-                 if ab then DOk evs' true
-                 else seq (ok evs') (loop g' (rev fresh ++ rest) seen')
-               | o => o
-               end
-             end
-           end) f' [stk] []
+      | TPlus c => closure_loop (den f' c env) env f' [stk] []
 
       | TAssert p =>
         match peval f' p env stk with
